@@ -681,6 +681,9 @@ def flags_in_domain(fl):
             return False        # an empty option: pkgconf drops empty arguments (outside the domain, stated in the manifest)
         if any(c in fr[-1] for fr in frs for c in '\n\r\0'):
             return False
+        text = ''.join(fr[-1] for fr in frs)
+        if frs and frs[0][0] != 2 and len(text) >= 2 and text[0] == '-' and text[1] in ' \t':
+            return False        # '-' followed by a blank: pkgconf takes the blank for the fragment's type letter and prints '-' alone
     return True
 
 
